@@ -15,6 +15,8 @@ import (
 // ("" = attribute absent). Values are fixed, the query and paging are symbolic.
 var c03vals = [...]string{1: "1", 2: "7", 3: "12", 4: "x7", 5: "", 6: "-3", 7: "7"}
 
+const c03max = "115792089237316195423570985008687907853269984665640564039457584007913129639935"
+
 type c03flt struct {
 	op  object.SearchMatchType
 	val string
@@ -38,6 +40,12 @@ func c03matches(v string, f c03flt) bool {
 	n, err := strconv.Atoi(v)
 	if err != nil {
 		return false // a value counts as an integer only if it is an optionally signed decimal number
+	}
+	if f.val == c03max {
+		return f.op == object.MatchNumLE || f.op == object.MatchNumLT
+	}
+	if f.val == "-"+c03max {
+		return f.op == object.MatchNumGE || f.op == object.MatchNumGT
 	}
 	m, _ := strconv.Atoi(f.val)
 	switch f.op {
@@ -79,8 +87,10 @@ func VerifC03Search() {
 		{{object.MatchNotPresent, ""}},
 		{{object.MatchStringEqual, "7"}, {object.MatchNumGT, "10"}},
 		{{object.MatchNumGE, "-3"}, {object.MatchStringNotEqual, "12"}},
+		{{object.MatchNumLE, c03max}},
+		{{object.MatchNumGE, "-" + c03max}},
 	}
-	qnames := [...]string{"N>=5", "N<10 && N>5", "N>5 && N<10", "N<=7", "N==7", "N!=7", "N prefix 1", "N absent", "N==7 && N>10", "N>=-3 && N!=12"}
+	qnames := [...]string{"N>=5", "N<10 && N>5", "N>5 && N<10", "N<=7", "N==7", "N!=7", "N prefix 1", "N absent", "N==7 && N>10", "N>=-3 && N!=12", "N<=2^256-1", "N>=-(2^256-1)"}
 	qi := vrt.Choice("query", len(queries))
 	q := queries[qi]
 	withAttr := vrt.Bool("attributeRequested")
